@@ -76,6 +76,8 @@ pub struct VerifState {
     pub insns: Vec<InsnRecord>,
     /// Addresses of the instructions that raised an error (in order).
     pub errors: Vec<usize>,
+    /// For each entry of `errors`, the number of the step (1-based count of executed instructions) that raised it.
+    pub error_steps: Vec<u64>,
     pub dumps: Vec<Dump>,
 }
 
@@ -97,6 +99,7 @@ pub struct RunReport {
     pub budget_exhausted: bool,
     pub insns: Vec<InsnRecord>,
     pub errors: Vec<usize>,
+    pub error_steps: Vec<u64>,
     pub dumps: Vec<Dump>,
     pub final_depths: Depths,
 }
@@ -202,6 +205,7 @@ pub fn run_in_memory(
         budget_exhausted: state.budget_exhausted,
         insns: state.insns,
         errors: state.errors,
+        error_steps: state.error_steps,
         dumps: state.dumps,
         final_depths,
     }
